@@ -1,26 +1,47 @@
 import HgVerif.Lemmas.SlotsSet
 import HgVerif.Lemmas.SlotsDict
+import HgVerif.Lemmas.SlotsDictV
 import HgVerif.Lemmas.SlotsWin
 /-!
 # C05 — collection deltas are coherent with collection values at every tick
 
-Property theorems only (helpers live in `Lemmas/Slots*.lean`).  The model is
-`Model/Slots.lean` (KeySlotStore, TSSSlotStorage, TSDSlotStorage, SizeTSWindowStorage and their
-mutation / output views).
+Property theorems only (helpers live in `Lemmas/Slots*.lean`).  The model is `Model/Slots.lean`
+(KeySlotStore, TSSSlotStorage, TSDSlotStorage, SizeTSWindowStorage and their mutation / output views).
+"Ghost" = the value at the start of the current delta window, carried next to the model state by
+`GSet/GDict/GDictV/GWin`; erasing it gives the plain model run (`*.run_x`, `GWin.run_w`).
 
-TSS
-* `tss_inv_reachable`       : for EVERY operation sequence (any times, also decreasing ones) the state
-                              reached satisfies `TSS.Inv` relative to the ghost "value at the start of the
-                              current delta window"; `slot_inv_reachable` is its slot-level part (no two
-                              constructed slots hold equal keys, the free list only holds free slots — a
-                              pending-erase slot is never handed out before `erase_pending`).
-* `tss_delta_canonical`     : `added = value \ V0`, `removed = V0 \ value`  (so any mutations that cancel
-                              within the window leave no trace), `tss_delta_coherent` : the five relations
-                              of the property.
+TSS (`TSS<Int>`)
+* `tss_inv_reachable`      : for EVERY operation sequence (any times, also decreasing ones) the reached state
+                             satisfies `TSS.Inv` relative to the ghost; `tss_slot_inv_reachable` is the slot-level
+                             part (ceiling): no two constructed slots hold equal keys; the free list holds only
+                             free slots, once each, so a pending-erase slot is never handed out before
+                             `erase_pending`; free slots carry no delta bit.
+* `tss_delta_canonical`    : `added = value \ V0`, `removed = V0 \ value` — the delta is a function of the two
+                             values alone, so mutations that cancel within the window leave no trace;
+  `tss_delta_coherent`     : **delta_coherent**: `value = (V0 \ removed) ∪ added`, `added ∩ removed = ∅`,
+                             `added ⊆ value`, `removed ∩ value = ∅`, `removed ⊆ V0`.
 * `tss_add_remove_no_trace`, `tss_remove_add_no_trace` : the two cancel patterns, explicitly.
-* `tss_window_is_cycle`     : with non-decreasing times the ghost is the value at the end of the previous
-                              cycle and the output view at the cycle's time shows the raw bits.
-* `tss_value_eq_fold`       : from empty, the value equals the fold of all deltas.
+* `tss_times`, `tss_ghost_is_cycle_start`, `tss_window_is_cycle` : with non-decreasing times a delta window is
+                             one engine cycle: `V0` is the value at the previous tick and the output view at
+                             the cycle's time shows exactly the raw bits.
+* `tss_ghost_eq_fold`, `tss_value_eq_fold` : from empty, the value equals the fold of all deltas.
+
+TSD (`TSD<Int, TS<Int>>`; value = live keys whose child has a value)
+* `tsd_inv_reachable`, `tsd_slot_inv_reachable`, `tsd_delta_canonical`, `tsd_delta_coherent`,
+  `tsd_set_erase_no_trace`, `tsd_erase_set_no_trace`, `tsd_times`, `tsd_window_is_cycle`, `tsd_ghost_eq_fold`,
+  `tsd_value_eq_fold`      : the same, at key level (floor).
+* `tsd_modified_subset_value`, `tsd_removed_readable` (ceiling).
+* value level: `TSDValueDeltaCoherent` is the FULL statement; `tsd_value_delta_incoherent` is a kernel-checked
+  counterexample (the real code fails the same history: a genuine defect); `tsd_value_delta_clean_partial`
+  (+ `tsd_vinv_reachable`, `tsd_vghost_is_cycle_start`) proves the statement for all clean histories;
+  `tsd_value_delta_partial` holds unconditionally.  `TSDKeySetCoherent` / `tsd_keyset_incoherent`: the
+  `key_set()` projection is not coherent when a key is created without a value (second defect).
+
+tick TSW (`TSW<Int>`, period N, min_period m)
+* `window_last_n`          : after ANY operation sequence the window holds exactly the last `min(k, N)` accepted
+                             pushes, in order, with their times; `size = min(k, N)`;
+                             `all_valid ↔ ticked ∧ min(k, N) ≥ m`; `full ↔ k ≥ N`.
+* `window_evicted`         : a push onto a full window evicts the `(k+1-N)`-th accepted push.
 -/
 namespace HgVerif.Slots
 local notation "Time" => Nat
@@ -682,6 +703,203 @@ theorem tsd_value_delta_partial (ops : List DictOp) (p : Key × Int)
   refine ⟨sget (TSD.run {} ops).keys.slots i, ⟨hs, ?_⟩, rfl⟩
   simp [Slot.member, (o2 hpub).1, (o2 hpub).2]
 
+/-! #### what is proved instead (`…_partial`): the value-level statement for CLEAN histories
+
+A history is *clean* when times never decrease and no key is inserted (`set` / `at`) while a pending-erase
+slot still holds that key with a child written at this very time — i.e. the key was not written and then
+erased earlier in the same cycle.  For clean histories the full value-level statement holds; so the
+rewrite-after-erase pattern above is the ONLY way the TSD delta loses a change (for `set/at/erase/clear/
+touch` histories over `TS<Int>` children).  Missing for the unrestricted statement: the code would have to
+mark a resurrected slot modified when its child was already written in the cycle. -/
+
+/-- clean histories, as a predicate on the run (the state each operation is applied to) -/
+def CleanHistory : TSD → List DictOp → Prop
+  | _, [] => True
+  | x, o :: rest => (o.time ≠ 0 → x.deltaTime ≤ o.time) ∧ x.cleanOp o ∧ CleanHistory (x.step o) rest
+
+structure GDictV where
+  x : TSD := {}
+  w0 : List (Key × Int) := []
+
+def GDictV.step (g : GDictV) (o : DictOp) : GDictV := { x := g.x.step o, w0 := g.x.vghost g.w0 o.time }
+def GDictV.run (ops : List DictOp) : GDictV := ops.foldl GDictV.step {}
+
+theorem GDictV.run_x (ops : List DictOp) : (GDictV.run ops).x = TSD.run {} ops := by
+  have : ∀ (g : GDictV), (ops.foldl GDictV.step g).x = TSD.run g.x ops := by
+    induction ops with
+    | nil => intro g; rfl
+    | cons o rest ih => intro g; simp only [List.foldl_cons, TSD.run]; exact ih _
+  exact this {}
+
+/-- the key ghost of `GDict` is the key projection of the item ghost -/
+theorem GDictV.run_keys (ops : List DictOp) :
+    (GDictV.run ops).w0.map (·.1) = (GDict.run ops).v0 ∧ (GDictV.run ops).x = (GDict.run ops).x := by
+  induction ops using snoc_ind with
+  | h0 => exact ⟨rfl, rfl⟩
+  | hs l o ih =>
+    have e1 : GDictV.run (l ++ [o]) = (GDictV.run l).step o := by simp [GDictV.run, List.foldl_append]
+    rw [e1, GDict.run_snoc]
+    simp only [GDictV.step, GDict.step]
+    rw [TSD.vghost_fst, ih.1, ih.2]
+    exact ⟨rfl, rfl⟩
+
+theorem tsd_vinv_fold (ops : List DictOp) : ∀ (g : GDictV), g.x.VInv g.w0 → CleanHistory g.x ops →
+    (ops.foldl GDictV.step g).x.VInv (ops.foldl GDictV.step g).w0 := by
+  induction ops with
+  | nil => intro g h _; exact h
+  | cons o rest ih =>
+    intro g h hcl
+    simp only [List.foldl_cons]
+    exact ih (g.step o) (TSD.step_vinv h o hcl.1 hcl.2.1) hcl.2.2
+
+/-- every state reached by a clean history satisfies the value-level invariant -/
+theorem tsd_vinv_reachable (ops : List DictOp) (hc : CleanHistory {} ops) :
+    (GDictV.run ops).x.VInv (GDictV.run ops).w0 :=
+  tsd_vinv_fold ops {} TSD.VInv_empty hc
+
+/-- with non-decreasing times the item ghost is the value (valid items) at the previous tick -/
+theorem tsd_vghost_is_cycle_start (ops : List DictOp) (o : DictOp) (hs : DNondecreasing (ops ++ [o]))
+    (h0 : o.time ≠ 0) :
+    (GDictV.run (ops ++ [o])).w0 = (TSD.run {} (ops.filter (fun a => a.time < o.time))).validItems := by
+  have hsnoc : ∀ (l : List DictOp) (a : DictOp), GDictV.run (l ++ [a]) = (GDictV.run l).step a := by
+    intro l a; simp [GDictV.run, List.foldl_append]
+  induction ops using snoc_ind generalizing o with
+  | h0 =>
+    simp only [List.nil_append, GDictV.run, List.foldl_cons, List.foldl_nil, GDictV.step, TSD.vghost, List.filter_nil,
+      TSD.run]
+    have : ¬ o.time ≤ (({} : GDictV).x).deltaTime := by
+      show ¬ o.time ≤ 0
+      omega
+    simp [this]
+  | hs l p ih =>
+    have hsl : DNondecreasing (l ++ [p]) := (List.pairwise_append.mp hs).1
+    have hpo : p.time ≤ o.time := (List.pairwise_append.mp hs).2.2 p (by simp) o (by simp)
+    have hdt : (GDictV.run (l ++ [p])).x.deltaTime = p.time := by
+      rw [(GDictV.run_keys (l ++ [p])).2, tsd_times (l ++ [p]), dmaxTime_snoc]
+      have := dmaxTime_le_of_sorted hsl
+      omega
+    rw [hsnoc]
+    show (GDictV.run (l ++ [p])).x.vghost (GDictV.run (l ++ [p])).w0 o.time = _
+    unfold TSD.vghost
+    rw [hdt]
+    by_cases hle : o.time ≤ p.time
+    · have heq : o.time = p.time := by omega
+      simp only [hle, ↓reduceIte]
+      rw [ih p hsl (by omega)]
+      simp only [List.filter_append, List.filter_cons, List.filter_nil, heq, Nat.lt_irrefl, decide_false,
+        Bool.false_eq_true, ↓reduceIte, List.append_nil]
+    · simp only [hle, ↓reduceIte]
+      rw [GDictV.run_x]
+      have hall : ∀ a ∈ l ++ [p], a.time < o.time := by
+        intro a ha
+        rcases List.mem_append.mp ha with ha | ha
+        · have := (List.pairwise_append.mp hsl).2.2 a ha p (by simp)
+          omega
+        · simp at ha; subst ha; omega
+      have : (l ++ [p]).filter (fun a => decide (a.time < o.time)) = l ++ [p] := by
+        apply List.filter_eq_self.mpr
+        intro a ha; simpa using hall a ha
+      rw [this]
+
+/-- executable form of the clean-history condition (what the generator of the `tsd` stream enforces) -/
+def TSD.cleanForB (x : TSD) (t : Time) (k : Key) : Bool :=
+  x.keys.slots.all (fun s => !(s.st == .pending && s.key == k && s.clmt == t))
+
+theorem TSD.cleanFor_of_B {x : TSD} {t : Time} {k : Key} (h : x.cleanForB t k = true) : x.cleanFor t k := by
+  intro i hp hk hc
+  have hi : i < x.keys.slots.length := lt_of_st_ne_free (by rw [hp]; decide)
+  have := (List.all_eq_true.mp h) _ (sget_mem hi)
+  simp [hp, hk, hc] at this
+
+def cleanHistoryB : TSD → List DictOp → Bool
+  | _, [] => true
+  | x, o :: rest =>
+    (o.time == 0 || decide (x.deltaTime ≤ o.time)) &&
+    (match o with | .set t k _ => x.cleanForB t k | .at t k => x.cleanForB t k | _ => true) &&
+    cleanHistoryB (x.step o) rest
+
+theorem cleanHistory_of_B : ∀ (ops : List DictOp) (x : TSD), cleanHistoryB x ops = true → CleanHistory x ops
+  | [], _, _ => trivial
+  | o :: rest, x, h => by
+    simp only [cleanHistoryB, Bool.and_eq_true, Bool.or_eq_true, beq_iff_eq, decide_eq_true_eq] at h
+    refine ⟨fun h0 => h.1.1.resolve_left h0, ?_, cleanHistory_of_B rest _ h.2⟩
+    cases o with
+    | set t k v => exact TSD.cleanFor_of_B h.1.2
+    | «at» t k => exact TSD.cleanFor_of_B h.1.2
+    | erase t k => trivial
+    | clear t => trivial
+    | touch t => trivial
+
+/-- **value' = previous value with the delta applied (TSD, clean histories)**: an item is in the value iff
+    it is a modified item, or it was in the value at the start of the cycle and its key is neither removed
+    nor modified -/
+theorem tsd_value_delta_clean_partial {x : TSD} {W0 : List (Key × Int)} (h : x.VInv W0) (p : Key × Int) :
+    p ∈ x.validItems ↔
+      p ∈ modifiedItemsRaw x.keys.slots ∨
+      (p ∈ W0 ∧ p.1 ∉ removedKeysRaw x.keys.slots ∧ p.1 ∉ (modifiedItemsRaw x.keys.slots).map (·.1)) := by
+  have hmodmem : ∀ q : Key × Int, q ∈ modifiedItemsRaw x.keys.slots ↔
+      ∃ i, (sget x.keys.slots i).st = .live ∧ (sget x.keys.slots i).modified = true ∧
+        (sget x.keys.slots i).key = q.1 ∧ (sget x.keys.slots i).cval = q.2 := by
+    intro q
+    simp only [modifiedItemsRaw, List.mem_map, List.mem_filter]
+    constructor
+    · rintro ⟨s, ⟨hs, hb⟩, rfl⟩
+      obtain ⟨i, _, rfl⟩ := exists_sget_of_mem hs
+      simp only [Bool.and_eq_true, beq_iff_eq] at hb
+      exact ⟨i, hb.1, hb.2, rfl, rfl⟩
+    · rintro ⟨i, hl, hm, hk, hv⟩
+      have hi : i < x.keys.slots.length := lt_of_st_ne_free (by rw [hl]; decide)
+      exact ⟨sget x.keys.slots i, ⟨sget_mem hi, by simp [hl, hm]⟩, Prod.ext hk hv⟩
+  constructor
+  · intro hp
+    obtain ⟨i, hl, hc, hk, hv⟩ := mem_validItems.mp hp
+    obtain ⟨_, _, o3, _⟩ := h.inv.slot i
+    have hpub := o3 hl hc
+    by_cases hm : (sget x.keys.slots i).modified = true
+    · exact Or.inl ((hmodmem p).mpr ⟨i, hl, hm, hk, hv⟩)
+    · right
+      have hm' : (sget x.keys.slots i).modified = false := by simpa using hm
+      have hw := (h.vslot i).1 hpub hm'
+      have hpe : ((sget x.keys.slots i).key, (sget x.keys.slots i).cval) = p := Prod.ext hk hv
+      refine ⟨hpe ▸ hw, ?_, ?_⟩
+      · intro hr
+        obtain ⟨j, hjr, hjk⟩ := mem_removedKeysRaw.mp hr
+        obtain ⟨_, _, _, _, o5, _⟩ := h.inv.slot j
+        have : j = i := h.inv.wf.uniq j i (by rw [(o5 hjr).1]; decide) (by rw [hl]; decide) (by rw [hjk, hk])
+        subst this
+        rw [(o5 hjr).1] at hl; cases hl
+      · intro hmk
+        obtain ⟨q, hq, hqk⟩ := List.mem_map.mp hmk
+        obtain ⟨j, hjl, hjm, hjk, _⟩ := (hmodmem q).mp hq
+        have : j = i := h.inv.wf.uniq j i (by rw [hjl]; decide) (by rw [hl]; decide) (by rw [hjk, hk, hqk])
+        subst this
+        exact hm hjm
+  · rintro (hp | ⟨hw, hnr, hnm⟩)
+    · obtain ⟨i, hl, hm, hk, hv⟩ := (hmodmem p).mp hp
+      obtain ⟨_, o2, _, _, _, _, _, o8⟩ := h.inv.slot i
+      exact mem_validItems.mpr ⟨i, hl, (o2 (o8 hm)).2, hk, hv⟩
+    · -- the key was valid at the start of the cycle and is not removed: it is still valid
+      have hkV : p.1 ∈ W0.map (·.1) := List.mem_map.mpr ⟨p, hw, rfl⟩
+      have hvalid : p.1 ∈ x.validKeys := by
+        have := (tsd_delta_canonical h.inv p.1).2
+        by_cases hx : p.1 ∈ x.validKeys
+        · exact hx
+        · exact absurd (this.mpr ⟨hkV, hx⟩) hnr
+      obtain ⟨i, hl, hc, hk⟩ := mem_validKeys.mp hvalid
+      obtain ⟨_, _, o3, _⟩ := h.inv.slot i
+      have hpub := o3 hl hc
+      have hm' : (sget x.keys.slots i).modified = false := by
+        cases hm : (sget x.keys.slots i).modified with
+        | false => rfl
+        | true =>
+          exfalso; apply hnm
+          exact List.mem_map.mpr ⟨((sget x.keys.slots i).key, (sget x.keys.slots i).cval),
+            (hmodmem _).mpr ⟨i, hl, hm, rfl, rfl⟩, hk⟩
+      have hw' := (h.vslot i).1 hpub hm'
+      have : ((sget x.keys.slots i).key, (sget x.keys.slots i).cval) = p :=
+        h.uniqW _ hw' _ hw hk
+      exact mem_validItems.mpr ⟨i, hl, hc, hk, by rw [← this]⟩
+
 /-- the `key_set()` projection read as a TSS: value = live keys, delta gated by the key set's own
     `last_modified_time`.  FULL statement (does not hold, see below). -/
 def TSDKeySetCoherent : Prop :=
@@ -906,6 +1124,14 @@ example :
 example :
     let x := TSD.run {} [.set 1 1 10, .set 1 2 20, .set 2 1 11]
     (2 ≤ x.deltaTime) ∧ (7 ∉ x.validKeys) ∧ (2 ∈ x.validKeys) := by decide
+
+/-- a clean history with a remove + re-insert (key 2 erased and set again in cycle 2, not written before the
+    erase), an update and an add-then-erase: hypotheses of `tsd_vinv_reachable` / `tsd_value_delta_clean_partial`;
+    and the rewrite-after-erase history is NOT clean -/
+example :
+    CleanHistory {} [.set 1 1 10, .set 1 2 20, .erase 2 2, .set 2 2 21, .set 2 1 11, .set 2 3 30, .erase 2 3] ∧
+    cleanHistoryB {} [.set 1 1 10, .erase 1 1, .set 1 1 12] = false :=
+  ⟨cleanHistory_of_B _ _ (by decide), by decide⟩
 
 /-- a window of period 3 after 5 pushes and the hypotheses of `window_evicted` for a sixth -/
 example :
